@@ -197,8 +197,54 @@ func min(a, b int) int {
 	return b
 }
 
+// Deep draws a deeply nested but well-formed program (blocks, parentheses,
+// arrays, calls, interpolation braces): nesting depth is what drives the
+// scanner's state stack and the parser's value stack.
+func Deep(t *rapid.T) []byte {
+	n := rapid.SampledFrom([]int{3, 17, 64, 130, 257, 1025}).Draw(t, "depth")
+	var open, close, mid string
+	switch rapid.IntRange(0, 6).Draw(t, "nestkind") {
+	case 0:
+		open, close, mid = "{ ", " }", "echo 1;"
+	case 1:
+		open, close, mid = "(", ")", "$a"
+	case 2:
+		open, close, mid = "[", "]", "1"
+	case 3:
+		open, close, mid = "f(", ")", "$x"
+	case 4:
+		open, close, mid = "if ($a) { ", " }", "$b = 1;"
+	case 5:
+		open, close, mid = "$a[", "]", "0"
+	default:
+		open, close, mid = "\"{$a[", "]}\"", "1"
+		if n > 130 {
+			n = 130
+		}
+	}
+	var b []byte
+	b = append(b, "<?php "...)
+	if open == "(" || open == "[" || open == "f(" || open == "$a[" || open[0] == '"' {
+		b = append(b, "$r = "...)
+	}
+	for i := 0; i < n; i++ {
+		b = append(b, open...)
+	}
+	b = append(b, mid...)
+	for i := 0; i < n; i++ {
+		b = append(b, close...)
+	}
+	if open != "{ " && open != "if ($a) { " {
+		b = append(b, ';')
+	}
+	return b
+}
+
 // Any draws an input from one of the byte-level sources.
 func Any(t *rapid.T) ([]byte, string) {
+	if rapid.IntRange(0, 39).Draw(t, "deep") == 0 {
+		return Deep(t), "deep-nesting"
+	}
 	switch rapid.IntRange(0, 5).Draw(t, "source") {
 	case 0:
 		return Seed(t), "corpus"
